@@ -16,6 +16,11 @@ Reply `= <stepreply> | <stepreply> | …` with
   <twin> = X | S <state> O <obs> D <draws>                  (`new(current parameters)`)
 exactly as `exec/src/bin/c18.rs` (see there).  The model has no other objects and no global generator, so its
 `R` stream is by construction its `D` stream.
+
+  bulk <kind> <seed> <rows> <cols> <arg>*     (`sample_n(rows)` if cols = 0, else `sample_matrix(rows, cols)`)
+Reply `= n <digest> <first 4> <last 4> <state> A <digest> <state> <digest> <state>`: the model has one sequential
+`sampleN` (n successive `sample()` calls threading the generator state), so the repeated bulk call and the n single
+calls are by construction the same value; the Rust executor really runs the three variants.
 -/
 open Cv Cv.DS
 
@@ -125,8 +130,45 @@ def runSteps (k : Kind) (sig : List Ty) (probes : List Probe) (seed : UInt64) :
       | some d => observe d probes seed
     runSteps k sig probes seed n obj (s!"{showBool p} C {c} {body}" :: acc)
 
+/-- FNV-1a over the bit patterns of the draws (NaN canonical). -/
+def fnvStep (h : UInt64) (x : Float) : UInt64 :=
+  let b : UInt64 := if x.isNaN then 0x7ff8000000000000 else x.toBits
+  (h ^^^ b) * 0x100000001b3
+
+/-- `n` successive `sample()` calls (tail recursive; `none` = a draw diverged / panicked). -/
+def bulkLoop (d : Dist Float) : Nat → Rng → Array Float → Option (Array Float × Rng)
+  | 0, g, acc => some (acc, g)
+  | n + 1, g, acc =>
+    match sampleD c18Fuel c18IFuel d g with
+    | none => none
+    | some (x, g) => bulkLoop d n g (acc.push x)
+
+def c18Bulk (k : Kind) (sig : List Ty) (rest : List String) : String :=
+  withArgs (do
+    let seed ← pU64
+    let rows ← pNat; let cols ← pNat
+    let args ← pArgs sig
+    pure (seed, rows, cols, args)) rest fun (seed, rows, cols, args) =>
+    match newD k args with
+    | none => panicked
+    | some d =>
+      let n := if cols == 0 then rows else rows * cols
+      match bulkLoop d n (Rng.ofSeed seed) (Array.mkEmpty n) with
+      | none => diverged
+      | some (xs, g) =>
+        let h := natToHex16 (xs.foldl fnvStep 0xcbf29ce484222325).toNat
+        let kk := min xs.size 4
+        let first := (xs.extract 0 kk).toList
+        let last := (xs.extract (xs.size - kk) xs.size).toList
+        let st := toString g.s.toNat
+        ok s!"{xs.size} {h} {showFloats first} {showFloats last} {st} A {h} {st} {h} {st}"
+
 def c18Step (args : List String) : String :=
   match args with
+  | "bulk" :: kindS :: rest =>
+    match kindOf kindS with
+    | none => badOp
+    | some (k, sig) => c18Bulk k sig rest
   | "hist" :: kindS :: rest =>
     match kindOf kindS with
     | none => badOp
